@@ -11,12 +11,15 @@ list model of the connections side by side (``body`` / ``bodym``, below, have a 
               emitted args x function/bound-method callback x module API/own Signals() x sender kind)
               and over the way the arguments are handed over: list / tuple / one-shot generator at
               connect (a list is afterwards left alone, extended or emptied by the caller) x list /
-              tuple / generator at disconnect(args); every connection is emitted to several times.
+              tuple / generator at disconnect(args); every connection is emitted to several times; the same
+              callback + arguments connected twice and three times (another handler in between), then
+              disconnect(args) once per connection, each followed by emits: one connection less every time.
               The other documented spellings of "connect" belong to the same sweep: the legacy positional
               ``connect_signal(obj, name, callback, user_arg)`` (every value of user_arg in {0, False, "", [],
               0.0, "x", 9} x the shapes of the other arguments; undone with ``disconnect_signal(obj, name,
               callback, user_arg)``) and the constructor shorthand of Button / CheckBox / RadioButton
-              (``on_press`` / ``on_state_change`` [+ ``user_data``], undone the way their docstrings say).
+              (``on_press`` / ``on_state_change`` [+ ``user_data``], undone the way their docstrings say; also
+              with the constructor's connection repeated exactly by a connect_signal() call).
 * ``reg``     "registered for the sender's class": every spelling of the registration (``signals`` class
               attribute on a MetaSignals class, a subclass, a third-level subclass, a list subclass, widget
               subclasses; explicit ``register_signal(cls, names)`` after the class definition for a plain class
@@ -32,7 +35,8 @@ list model of the connections side by side (``body`` / ``bodym``, below, have a 
               that dies at that line (of the first / middle / last connection, of the one being
               connected).  Later emits, connects and disconnects judge the result.
 * ``machine`` Hypothesis op lists (<= 25 ops) with parametrised handler behaviours, duplicate
-              connections, per-connection tags, ``del weak_arg; gc.collect()`` at generated points
+              connections (disconnected by key or, one at a time, by their arguments), per-connection tags,
+              ``del weak_arg; gc.collect()`` at generated points
               (top level, inside handlers, i.e. collection mid-emit, and - op ``arm`` - at the k-th
               line of signals.py executed by the next operation), sender drops, no-op disconnects,
               unregistered-name connects, list / tuple / generator argument containers per handler,
@@ -73,8 +77,12 @@ body / bodym: per emit of walker w the calls are exactly the model's connections
   whose body is handed to it again stays connected once; its place in the order is then not judged.
 connect: accepted if the name is in the latest list registered for the sender's class, NameError otherwise.
 No-op disconnects are performed on the real object only (model unchanged) and judged by later emits.
-disconnect(args) is never applied when two connections of the slot carry the same callback and
-arguments (the docs do not say which is removed); disconnect_by_key is used for those.
+disconnect(args) on a slot where k >= 2 connections carry the same callback and arguments ("will remove a
+  callback from the list"): one connection less, k - 1 stay connected - every later emit must call that
+  callback + arguments exactly k - 1 times (untouched, nothing equal added meanwhile).  The docs do not say
+  which of the k is removed, so from then on the place of these calls among the others is not judged and the
+  keys of the k connections are not used any more (until none of them is left).  An emit in progress during
+  such a disconnect may have lost any of them: all k count as touched.
 """
 from __future__ import annotations
 
@@ -97,14 +105,18 @@ RULE = (
     "names [thorough: <= 5 on 2x2x3 plus length 6 on one sender x one name] of connect / disconnect(args) / "
     "disconnect_by_key / emit, times every assignment of the 7 behaviours {plain, returns True, "
     "disconnects itself, disconnects previous, disconnects next, connects a new handler, emits "
-    "recursively} to the handlers that get connected (handler 1 hands its arguments over as one-shot "
+    "recursively} to the handlers that get connected (a handler connected several times to a slot makes equal "
+    "connections; disconnect(args) then takes one of them; handler 1 hands its arguments over as one-shot "
     "generators, handler 2 as a list it extends afterwards and disconnects with a tuple); args: all argument shapes (weak 0-2 x user 0-2 x "
     "emitted 0-2 x func/method x API x 11 sender kinds) plus all ways of handing the arguments over "
     "(connect with list / list extended afterwards / list emptied afterwards / tuple / one-shot generator x "
-    "disconnect(args) with list / tuple / generator x weak 0-2 x user 0-2 x func/method) plus the legacy "
+    "disconnect(args) with list / tuple / generator x weak 0-2 x user 0-2 x func/method), each history holding "
+    "the same callback + arguments connected 2 and 3 times and disconnected by arguments one at a time down to "
+    "none (+ one no-op) with emits in between, plus the legacy "
     "positional user_arg (7 values, 5 of them false but not None, x weak 0-1 x user 0-2 x emitted 0-2 x "
     "func/method x API) plus the constructor shorthand of Button (2 subclasses) / CheckBox / RadioButton "
-    "(no user_data and the 7 values x func/method; emits by emit_signal and, for buttons, by keypress; "
+    "(no user_data and the 7 values x func/method x the later connect_signal() calls add a user argument / repeat "
+    "the constructor's connection exactly; emits by emit_signal and, for buttons, by keypress; "
     "disconnect_signal(widget, name, callback [, user_data]); widget dropped and rebuilt); reg: 11 sender "
     "kinds (signals attribute at level 1 / 2 / 3 of a hierarchy, list subclass, widget subclasses, "
     "register_signal() after the definition of a plain class / a WidgetWrap subclass / a Button subclass) "
@@ -129,7 +141,8 @@ RULE = (
     "senders (11 kinds, widgets optionally built with the constructor shorthand) x 2 names (+ a third, "
     "normally unregistered one) x 3-5 parametrised handlers (argument container list / tuple / generator, "
     "list mutated after connect, legacy user_arg) with register-again, emit-by-keypress, weak-argument drops + gc.collect() at top level, inside handlers and "
-    "('arm') at the k-th signals.py line of the next operation, sender drops, duplicates, no-op disconnects, "
+    "('arm') at the k-th signals.py line of the next operation, sender drops, duplicates (disconnected by key or "
+    "by their arguments, at top level and from inside handlers), no-op disconnects, "
     "unregistered names. "
     "Non-trivial: the history contains an emit on a slot to which a handler that changes the handler "
     "list (disconnect / connect / weak-argument drop) has been connected, or a weak argument is dropped "
@@ -142,8 +155,12 @@ ASSUMPTIONS = [
     "received arguments (signature); equal signatures are not distinguished",
     "gc.collect() collects every unreachable object (CPython); the harness keeps only labels of weak "
     "arguments in its logs",
-    "disconnect(args) on a slot holding two connections with identical callback and arguments is not "
-    "generated (docs silent on which one is removed)",
+    "disconnect(args) on a slot holding k >= 2 connections with identical callback and arguments removes exactly "
+    "one of them (docstring: 'will remove a callback from the list'; connect and disconnect pair off); which one "
+    "the docs do not say, so afterwards only the number of calls with that callback + arguments per emit (k - 1) "
+    "is judged, not their place among the other handlers' calls, and the keys of those k connections are not "
+    "passed to disconnect_by_key any more; when the k connections differ in the type of a legacy user_arg only "
+    "(0 / False / 0.0) the disconnect is made by key instead",
     "callbacks do not raise",
     "the deprecated positional user_arg of connect_signal / disconnect_signal and the on_press / on_state_change "
     "[, user_data] constructor arguments of Button, CheckBox and RadioButton are documented, still supported "
@@ -476,6 +493,9 @@ class State:
         self.trace_lines = 0  # line events of signals.py seen during the last op run under an Injector
         self.injected = []  # (label, "function:lineno") of the injections that fired
         self.tainted = set()  # slots on which disconnect / disconnect_by_key was interrupted by such a death
+        # slot -> signatures of which one of several equal connections was disconnected by arguments: how many
+        # are connected is known, where they stand in the connection order is not
+        self.floating = {}
         self.cbs = []
         for h, hs in enumerate(self.hspecs):
             if hs.get("method"):
@@ -642,6 +662,8 @@ class State:
                 cur = next((i for i, c in enumerate(lst) if c is fr.cur), None)
                 fr.events.append((pos, cur, [c.cid for c in lst[pos + 1 :]]))
         del lst[pos]
+        if not any(c.sig == conn.sig for c in lst):
+            self.floating.get(conn.slot, set()).discard(conn.sig)  # connected afresh, its place is known again
         self.gone_sigs.setdefault(conn.slot, set()).add(conn.sig)
         if self.frames:
             _count("dyn:removed-during-emit")
@@ -709,15 +731,19 @@ class State:
         return c
 
     def do_disconnect_conn(self, conn, via):
-        """disconnect a connection of the model, by arguments where that is well defined"""
+        """disconnect a connection of the model: by its key, or by its arguments.  disconnect(args) "will remove a
+        callback from the list" - one; among several connections made with the same callback and arguments the
+        docs do not say which (see _disconnect_one_of_equal)"""
         s, n = conn.slot
         lst = self.model.get(conn.slot, [])
         connected = any(c is conn for c in lst)
-        same = sum(1 for c in lst if c.dsig == conn.dsig)
+        group = [c for c in lst if c.dsig == conn.dsig]  # what disconnect(args) cannot tell apart
         if via == "key" and conn.key is None:
-            via = "args"  # connected by a widget's constructor: there is no key
-        if via == "args" and (same > (1 if connected else 0) or not self.args_available(conn)):
-            # ambiguous (duplicates) or the weak arguments cannot be supplied any more
+            via = "args"  # connected by a widget's constructor (or its key is not known any more): there is no key
+        if via == "args" and (
+            any(c.sig != conn.sig for c in group)  # connections that differ in 0 / False / 0.0 only: not generated
+            or not self.args_available(conn)  # the weak arguments cannot be supplied any more
+        ):
             if conn.key is None:
                 _count("dyn:disconnect-not-performed")
                 return
@@ -732,13 +758,41 @@ class State:
                 kw["user_args"] = _container(dcont, list(conn.uargs))
             pos = () if conn.ua is None else (_uval(conn.ua[0]),)
             self.disconnect(self.senders[s], self.name(s, n), self.callback(conn.h), *pos, **kw)
-        else:
-            self.disconnect_by_key(self.senders[s], self.name(s, n), conn.key)
+            if not group:
+                _count("dyn:noop-disconnect")
+                return
+            now = self.model.get(conn.slot, ())
+            if not all(any(c is g for c in now) for g in group):
+                return  # their weak argument died while the call was in progress (model updated by on_death)
+            if len(group) == 1:
+                # (conn itself, or - conn being disconnected already - the one connection made the same way)
+                self.model_remove(group[0])
+            else:
+                self._disconnect_one_of_equal(group)
+            return
+        self.disconnect_by_key(self.senders[s], self.name(s, n), conn.key)
         if not connected:
             _count("dyn:noop-disconnect")
         elif any(c is conn for c in self.model.get(conn.slot, ())):
             self.model_remove(conn)
         # else: one of its weak arguments died while the call was in progress (model updated by on_death)
+
+    def _disconnect_one_of_equal(self, group):
+        """disconnect(args) met k >= 2 connections of the slot made with the same callback and the same arguments:
+        one connection less ("remove a callback"), k - 1 stay connected and are served by every later emit.
+        Which of the k is gone the docs do not say, so from here on (weaker reading) the place of these
+        connections in the order is not judged, only their number; their keys are not used any more; an emit in
+        progress may have lost any of them (all count as touched)."""
+        slot, sig = group[0].slot, group[0].sig
+        _count(f"dyn:args-disconnect-among-equal-connections:{min(len(group), 3)}{'+' if len(group) > 3 else ''}")
+        for fr in self.frames:
+            fr.touched.update(c.cid for c in group)
+        self.floating.setdefault(slot, set()).add(sig)
+        forget = [c.key for c in group if c.key is not None]
+        self.keys = [e for e in self.keys if not any(e[2] is k for k in forget)]
+        for c in group:
+            c.key = None
+        self.model_remove(group[0])  # any of them: they cannot be told apart
 
     def do_emit(self, s, n, eargs, press=False):
         fr = Frame()
@@ -907,6 +961,24 @@ class State:
         t_conns = [c for c in fr.S if c.cid not in fr.touched]
         silent = {c.sig for c in fr.S if c.cid in fr.touched} | {c.sig for c in fr.added}
         t_conns = [c for c in t_conns if c.sig not in silent]
+        # equal connections of which disconnect(args) has taken one: connected throughout, so called once each -
+        # their number is judged here, their place in the order is not (not known which of them is left)
+        floating = {c.sig for c in t_conns} & self.floating.get(fr.slot, set())
+        for sg in sorted(floating, key=repr):
+            n_want, n_got = sum(1 for c in t_conns if c.sig == sg), fr.calls.count(sg)
+            if n_want:
+                _count("dyn:emit-to-equal-connections-left-by-args-disconnect")
+            if n_got != n_want:
+                v = Violation(
+                    "throughout-once-in-order:" + ("not-called" if n_got < n_want else "called-more-than-once"),
+                    f"emit{fr.slot} depth {fr.depth}: {n_want} connection(s) {list(sg)} are connected throughout (of "
+                    f"several equal connections disconnect(args) removed one each time it was called), {n_got} call(s) "
+                    f"with these arguments; calls {[list(x) for x in fr.calls]}, connected at start "
+                    f"{[list(c.sig) for c in fr.S]}",
+                )
+                v.slot = fr.slot
+                raise v
+        t_conns = [c for c in t_conns if c.sig not in floating]
         t_sigs = [c.sig for c in t_conns]
         want = set(t_sigs)
         got = [sg for sg in fr.calls if sg in want]
@@ -1046,14 +1118,15 @@ def _do_op(state, op):
         if lst:
             state.do_disconnect_conn(lst[op[3] % len(lst)], "args")
     elif kind == "dh":
-        # disconnect(args) handler h with its own (untagged) arguments: that connection if there is exactly
-        # one; a no-op if h is not connected to the slot at all; not performed otherwise (several identical
-        # connections: docs silent on which is removed; connected with other arguments: docs say the
-        # arguments "should be exactly the same")
+        # disconnect(args) handler h with its own (untagged) arguments: one of the connections made with them
+        # (if there are several the docs are silent on which); a no-op if h is not connected to the slot at
+        # all; not performed when it is connected with other arguments only (docs say the arguments "should be
+        # exactly the same")
         s, n, h = op[1], op[2], op[3] % nh
         conns = [c for c in state.model.get((s, n), []) if c.h == h]
         plain = [c for c in conns if c.plain]
-        if len(plain) == 1:
+        if plain:
+            # (several: they are equal connections, one of them goes - the model does not know which)
             state.do_disconnect_conn(plain[0], "args")
         elif not conns:
             hs = state.hspecs[h]
@@ -1108,6 +1181,7 @@ def _drop_sender(state, s, replace):
     for slot in [slot for slot in state.model if slot[0] == s]:
         del state.model[slot]
         state.gone_sigs.pop(slot, None)
+        state.floating.pop(slot, None)
     state.sgen[s] += 1
     del obj
     gc.collect()
@@ -1290,12 +1364,16 @@ def args_cases():
     for kind in CTOR_KINDS:
         for method in (False, True):
             for uarg in (None, *UARGS):
-                yield {"api": "global", "kind": kind, "method": method, "ctor": 1, "uarg": uarg}
+                # dup: the connect_signal() calls of the history repeat the constructor's connection exactly
+                # (same callback, same user_data) instead of adding a user argument
+                for dup in (0, 1):
+                    yield {"api": "global", "kind": kind, "method": method, "ctor": 1, "uarg": uarg, "dup": dup}
 
 
 def _args_classes(c):
     if "ctor" in c:
-        return [f"args:constructor-shorthand:{c['kind']}", f"args:user_data:{c['uarg']!r}"]
+        return [f"args:constructor-shorthand:{c['kind']}", f"args:user_data:{c['uarg']!r}",
+                *(["args:constructor-connection-repeated-by-connect_signal"] if c.get("dup") else [])]
     out = [f"args:w{c['nw']}u{c['nu']}e{c['ne']}"]
     if "uarg" in c:
         out.append(f"args:legacy-user_arg:{c['uarg']!r}")
@@ -1308,6 +1386,8 @@ def _check_ctor(case):
     """Button(label, on_press, user_data) / CheckBox(..., on_state_change, user_data) / RadioButton(...):
     "shorthand for connect_signal()", to be undone with disconnect_signal(widget, name, callback, user_data)"""
     h0 = {"beh": ["plain"], "ret": None, "weak": [], "uargs": ["u"], "method": case["method"]}
+    if case.get("dup"):
+        h0.update(uargs=[], uarg=case["uarg"])
     h1 = {"beh": ["plain"], "ret": 1, "weak": [0], "uargs": [], "method": not case["method"]}
     e00, e01, press = ["e", 0, 0, [3]], ["e", 0, 1, []], ["p", 0]
     ops = [
@@ -1340,6 +1420,10 @@ def check_args(case):
         ["dh", 0, 0, 0], e00, e01,  # now the untagged one
         ["dh", 0, 0, 0], e00,  # not connected any more: no-op
         ["c", 0, 0, 0, 0], ["c", 0, 0, 0, 0], e00,  # the same callback + arguments twice: two connections
+        ["c", 0, 0, 1, 0], ["c", 0, 0, 0, 0], e00,  # ... and a third time, behind another handler
+        # every disconnect(args) takes exactly one of them, the others go on being called once each per emit
+        ["dh", 0, 0, 0], e00, ["dh", 0, 0, 0], e00, e01, ["dh", 0, 0, 0], e00, ["dh", 0, 0, 0], e00,
+        ["c", 0, 0, 0, 0], ["c", 0, 0, 0, 0], e00,
         ["dw", 0], e00, e01, ["cbad", 0, 0], ["cbad", 0, 1],
     ]
     run_machine({"api": case["api"], "senders": [case["kind"], "meta"], "handlers": [h0, h1], "ops": ops})
